@@ -331,17 +331,42 @@ Definition request_of (st : rstate) : request :=
                end |}.
 
 (* build(): the bytes and the attributes it leaves behind (within [build_modelled]) *)
+(* the url given as `path=` may carry a query and a fragment: build() splits it (urlsplit: '#'
+   first, then '?'), merges the query's arguments into .qargs (updateQargsQuery: later names
+   replace, values and names unquote_plus'ed), stores the bare path back and NEVER sends the
+   fragment *)
+Definition qargs_merge (q : list (ustr * ustr)) (query : ustr) : list (ustr * ustr) :=
+  match query with
+  | [] => q
+  | _ =>
+    let parts := if mem_n 59 query then split_at 59 query []
+                 else if mem_n 38 query then split_at 38 query [] else [query] in
+    fold_left (fun d part =>
+                 match part with
+                 | [] => d
+                 | _ => let '(k, f, v) := partition1 61 part in
+                        if f then dset d (unquote_plus k) (unquote_plus v)
+                        else dset d (unquote_plus part) (str "true")
+                 end) parts q
+  end.
+
+Definition effective (r : request) : request :=
+  let '(p0, _, _) := partition1 35 (q_path r) in
+  let '(p, _, query) := partition1 63 p0 in
+  {| q_method := q_method r; q_path := p; q_qargs := qargs_merge (q_qargs r) query;
+     q_headers := q_headers r; q_body := q_body r |}.
+
 Definition build_step (host : ustr) (port : N) (st : rstate) : bytes * rstate :=
-  let r := request_of st in
+  let r := effective (request_of st) in
   (build host port r,
-   {| s_method := s_method st; s_path := s_path st; s_qargs := s_qargs st;
+   {| s_method := s_method st; s_path := q_path r; s_qargs := q_qargs r;
       s_headers := final_headers r; s_body := s_body st; s_data := s_data st; s_fargs := s_fargs st |}).
 
 (* a history: the first build, then rebuild(args) for each args.  Result: for every build the
    request it was asked to send (state after reinit) and the bytes *)
 Fixpoint history (host : ustr) (port : N) (st : rstate) (ops : list rargs) : list (request * bytes) :=
   let '(w, st') := build_step host port st in
-  (request_of st, w) ::
+  (effective (request_of st), w) ::
   match ops with
   | [] => []
   | a :: ops' => history host port (apply_args st' a) ops'
